@@ -105,10 +105,17 @@ class CkptBackend(TrialBackend):
         return super().start_trial(config, checkpoint_trial_id)
 
     def resume_trial(self, trial_id, new_config=None):
-        self.log.append(("resume", int(trial_id), trial_id not in self.deleted))
+        alive = trial_id not in self.deleted
+        try:
+            res = super().resume_trial(trial_id, new_config)
+        except AssertionError:
+            # the base class refuses (unknown id / status not paused): nothing is resumed
+            self.log.append(("resume_rejected", int(trial_id)))
+            raise
+        self.log.append(("resume", int(trial_id), alive))
         # a trial resumed without checkpoint trains from scratch and writes a new one
         self.deleted.discard(trial_id)
-        return super().resume_trial(trial_id, new_config)
+        return res
 
     def _resume_trial(self, trial_id):
         pass
